@@ -342,11 +342,12 @@ impl Heap {
                 }
             };
 
-            // Avoid cyclic graphs by following already marked paths
-            if self.heap_map.is_marked(ptr) {
-                return;
-            } else {
-                self.heap_map.mark(ptr);
+            // Only an allocated cell can be live: an already marked one ends a cycle, and an
+            // index that is no reference at all (a jump offset in bytecode is encoded like one)
+            // may name a free cell, which must stay free as long as it is on the free list.
+            match self.heap_map.get(ptr) {
+                Some(State::Allocated) => self.heap_map.mark(ptr),
+                _ => return,
             }
 
             //trace!("mark {} => {}", ptr, vcell);
